@@ -135,16 +135,18 @@ Definition jsonl_spec_on (loads : text -> option jval) (ws : N -> bool) (ie : bo
       && jres_eqb rev_ (Ok (jsonl_reverse_spec loads ws ie t))
       && jsonl_mirrored ie fwd rev_).
 
+(* text modes: forward iteration (universal newlines) and the reverse reader (bytes.splitlines) agree on what
+   a line break is for EVERY text, so there the mirror clause is demanded outside the \n / \r\n domain too *)
 Definition jsonl_spec_ok (m : fmode) (ie : bool) (c : text) (fwd rev_ : res (list jval * bool)) : bool :=
   match m with
   | Binary => jsonl_spec_on (loads_bytes mini_loads) is_ws_bytes ie c fwd rev_
   | TextUtf8 => match utf8_decode c with
-                | Some t => jsonl_spec_on mini_loads is_ws_str ie t fwd rev_
+                | Some t => jsonl_mirrored ie fwd rev_ && jsonl_spec_on mini_loads is_ws_str ie t fwd rev_
                 | None => true
                 end
-  | TextLatin1 => jsonl_spec_on mini_loads is_ws_str ie c fwd rev_
+  | TextLatin1 => jsonl_mirrored ie fwd rev_ && jsonl_spec_on mini_loads is_ws_str ie c fwd rev_
   | TextTable tbl => match sb_decode tbl c with
-                     | Some t => jsonl_spec_on mini_loads is_ws_str ie t fwd rev_
+                     | Some t => jsonl_mirrored ie fwd rev_ && jsonl_spec_on mini_loads is_ws_str ie t fwd rev_
                      | None => true
                      end
   end.
